@@ -299,3 +299,28 @@ example :
     gP.overwriteInPlace (gH.overwriteInPlace freshDoc) ≠ gP.overwriteInPlace freshDoc := by decide
 
 end Pxv.Gen
+
+/-! ### `persist_if_changed` leaves the requested bytes on disk, whatever was there -/
+namespace Pxv.Gen
+
+/-- after `persist_if_changed(p, c)` the file at `p` holds exactly `c`: for no file, the same bytes, other bytes of
+    another length, other bytes of the SAME length. (↔ `has_changed_file2buffer`: length + checksum of ALL bytes.) -/
+theorem persistIfChanged_result (fs : FS) (p : String) (c : List Nat) :
+    ((persistIfChanged fs p c).get p).map (·.bytes) = some c := by
+  unfold persistIfChanged hasChanged FS.get
+  cases h : fs p with
+  | none => simp [FS.write]
+  | some f =>
+    by_cases hb : f.bytes = c
+    · simp [h, hb]
+    · simp [hb, FS.write]
+
+/-- and nothing else is touched -/
+theorem persistIfChanged_other (fs : FS) (p q : String) (c : List Nat) (h : q ≠ p) :
+    (persistIfChanged fs p c).get q = fs.get q := by
+  unfold persistIfChanged FS.get
+  split
+  · simp [FS.write, h]
+  · rfl
+
+end Pxv.Gen
